@@ -33,6 +33,7 @@ THEOREMS = [
     "Aio.C17.at_most_max_redirects_plus_one_resend",
     "Aio.C17.one_resend_per_call",
     "Aio.C17.single_resend_exceeds_max_by_one",
+    "Aio.C17.netrc_credential_is_for_this_host",
 ]
 RULE = ("a case = (method, start URL over 7 origins [same host other port / other scheme / other host / sub-domain / IP] "
         "with or without embedded credentials, caller headers incl. Authorization / Cookie / Proxy-Authorization / Host / "
@@ -51,7 +52,12 @@ RULE = ("a case = (method, start URL over 7 origins [same host other port / othe
         "same-origin, cross-origin and A-B-A chains followed by a second plain call on the same session, environment-proxy tables "
         "(http_proxy / https_proxy in both environment orders, with / without userinfo, same or different proxy, no netrc or an empty "
         "one; chains that switch scheme and thereby proxy; CONNECT answered 502), "
-        "random mixes (15 % with random faults, 10 % DummyCookieJar, 15 % with a follow-up call). A case is non-trivial when at least one request reached a server; distinct by content.")
+        "secure-origin walks (CookieJar(treat_as_secure_origin=[plain-http origins]) with Secure cookies over every other port / "
+        "scheme / sub-domain of the host), session-state cases (header-less calls in which the client installs Authorization itself "
+        "- URL / Location userinfo, netrc - followed by header-less calls on the same session to the same and to other origins; "
+        "with and without a raise_for_status callback that reads resp.history), explicit proxy= with userinfo followed by plain "
+        "calls, random mixes (15 % with random faults, 10 % DummyCookieJar, 15 % with follow-up calls to two origins, 6 % "
+        "treat_as_secure_origin, 6 % raise_for_status callback). A case is non-trivial when at least one request reached a server; distinct by content.")
 TRUSTED_BASE = [
     "yarl is not modelled: each redirect target reaches the model already classified (missing / URL() raised / non-HTTP scheme / "
     "origin() raised / absolute URL with origin, Host value, request-target, userinfo-derived Authorization value) - the harness "
@@ -81,6 +87,11 @@ ASSUMPTIONS = [
     "max_redirects = 0 means *unlimited* in the code (`if max_redirects and redirects >= max_redirects`); the bound "
     "'at most max_redirects requests' is stated and checked for max_redirects >= 1 only",
     "the caller's Content-Length, when supplied, equals the body length",
+    "the caller never supplies a Transfer-Encoding header: with it every first request of the unchanged tree is already malformed "
+    "(Content-Length and Transfer-Encoding together, body unframed - C04's domain), and the header would survive the 303 / POST "
+    "rewrite to GET, whose chunked body then never arrives (seeder's observation, reproduced; outside this property's quantifier)",
+    "C17-K3: a callable raise_for_status that reads resp.history freezes the reify-cached property at () before the loop assigns "
+    "it (known finding; fix: assign resp._history before calling raise_for_status, or make history a plain property)",
     "HEAD requests are generated without a (non-empty) body: the in-memory aiohttp *server* does not consume the body of a HEAD "
     "request (it is parsed as the next request), so such requests cannot be observed faithfully",
     "F18 (3xx without Location is the last element of its own history) is a genuine deviation of the unchanged code: the check "
@@ -89,7 +100,8 @@ ASSUMPTIONS = [
 
 ORIGINS = [("http", "a.test", 80), ("http", "a.test", 8080), ("https", "a.test", 443), ("http", "b.test", 80),
            ("https", "b.test", 8443), ("http", "sub.a.test", 80), ("http", "127.0.0.1", 80),
-           ("http", "sib.a.test", 80), ("http", "x.sub.a.test", 80), ("https", "sub.a.test", 443)]
+           ("http", "sib.a.test", 80), ("http", "x.sub.a.test", 80), ("https", "sub.a.test", 443),
+           ("http", "a.test", 9090)]
 DEFAULT_PORT = {"http": 80, "https": 443}
 NETRC = {"a.test": ("na", "", "npa"), "b.test": ("nb", "", "npb")}
 REDIRECTS = (301, 302, 303, 307, 308)
@@ -471,7 +483,8 @@ async def run_case(case, obs):
         from aiohttp import DummyCookieJar
         jar, twin = DummyCookieJar(), DummyCookieJar()      # a session that must never send or keep any jar cookie
     else:
-        jar, twin = CookieJar(), CookieJar()
+        so = [URL(url_str(o, "/")) for o in case.get("secure_origins") or []]
+        jar, twin = CookieJar(treat_as_secure_origin=so), CookieJar(treat_as_secure_origin=so)
     ref = RefJar(dummy)
     for o, n, v in case.get("jar0", []):
         for j in (jar, twin):
@@ -487,7 +500,8 @@ async def run_case(case, obs):
         u = URL(url_str(o, first_target if k == 0 else path))
         jsel = sel(twin, u)
         twin_sel.append(jsel)
-        ref_sel.append(ref.select(ORIGINS[o][1], u.path, ORIGINS[o][0] == "https"))
+        # a request is "secure" over https, or when exactly its origin (scheme, host AND port) was declared trustworthy
+        ref_sel.append(ref.select(ORIGINS[o][1], u.path, ORIGINS[o][0] == "https" or o in (case.get("secure_origins") or [])))
         rsel = []
         if case.get("cookies") is not None:
             tmp = CookieJar()
@@ -560,14 +574,20 @@ async def run_case(case, obs):
                 kw["cookies"] = dict(case["cookies"])
             if case.get("params"):
                 kw["params"] = dict(case["params"])
+            if case.get("rfs") == "reads-history":
+                async def rfs_cb(resp):
+                    resp.history        # an application-level status check that looks at the chain
+                kw["raise_for_status"] = rfs_cb
             try:
                 r = await s.request(case["method"], start_url, allow_redirects=case["allow"],
                                     max_redirects=case["max"], **kw)
                 recording[0] = False
                 final = r._c17_i
-                hist = [h._c17_i for h in r.history]
+                # what the loop recorded (r._history) is compared with the model; what the caller sees (r.history) is judged by the oracle
+                hist = [h._c17_i for h in r._history]
                 out = f"ok,{final}," + (".".join(map(str, hist)) if hist else "~")
-                hist_obs = [{"i": h._c17_i, "status": h.status, "released": h._connection is None and h.closed} for h in r.history]
+                hist_obs = [{"i": h._c17_i, "status": h.status, "released": h._connection is None and h.closed} for h in r._history]
+                obs["hist_public"] = [h._c17_i for h in r.history]
                 leak_before = len(conn._acquired)
                 r.release()
                 await asyncio.sleep(0)
@@ -599,11 +619,13 @@ async def run_case(case, obs):
                 leak_after = len(conn._acquired)
             if case.get("followup") and not start.get("nohost"):
                 phase[0] = "followup"
-                try:
-                    r2 = await s.get(url_str(start["o"], "/d/later"), allow_redirects=False)
-                    r2.release()
-                except Exception as e:  # noqa
-                    followup_seen.append({"error": type(e).__name__, "headers": [], "origin": None})
+                fo = case["followup"]
+                for o2 in ([start["o"]] if fo is True else fo):
+                    try:
+                        r2 = await s.get(url_str(o2, "/d/later"), allow_redirects=False)
+                        r2.release()
+                    except Exception as e:  # noqa
+                        followup_seen.append({"error": type(e).__name__, "headers": [], "origin": None})
         await srv.shutdown(0)
     finally:
         client_mod.netrc_from_env, client_mod.get_env_proxy_for_url = saved
@@ -643,7 +665,17 @@ async def run_proxy_case(case, obs):
     obs.update({"seen": seen, "out": None})
     chain = case["chain"]
 
+    later = []
+    phase = ["call"]
+
     async def handler(request):
+        if phase[0] == "later":
+            later.append({"endpoint": request.transport.get_extra_info("c17_endpoint"), "method": request.method,
+                          "target": request._message.path,
+                          "headers": [(k.decode("latin-1"), v.decode("latin-1")) for k, v in request.raw_headers]})
+            if request.method != "CONNECT":
+                await request.read()
+            return web.Response(status=502 if request.method == "CONNECT" else 200)
         entry = {"endpoint": request.transport.get_extra_info("c17_endpoint"), "method": request.method,
                  "target": request._message.path,
                  "headers": [(k.decode("latin-1"), v.decode("latin-1")) for k, v in request.raw_headers]}
@@ -674,20 +706,32 @@ async def run_proxy_case(case, obs):
     try:
         async with aiohttp.ClientSession(connector=conn, trust_env=True) as s:
             try:
+                pkw = {}
+                if case.get("explicit"):
+                    pkw["proxy"] = proxy_url(case["explicit"])          # proxy= argument of the call, no proxy_headers=
                 r = await s.request(case["method"], url_str(case["start"]["o"], case["start"]["path"]),
-                                    headers=CIMultiDict(case.get("headers") or []) or None)
+                                    headers=CIMultiDict(case.get("headers") or []) or None, **pkw)
                 out = f"ok,{r.status}"
                 r.release()
             except ce.ClientHttpProxyError:
                 out = "err,proxy"
             except Exception as e:  # noqa
                 out = f"err,{type(e).__name__}"
+            # later plain calls on the same session (no proxy=, no headers=)
+            phase[0] = "later"
+            for o2 in case.get("later") or []:
+                try:
+                    r2 = await s.get(url_str(o2, "/d/later"), allow_redirects=False)
+                    r2.release()
+                except Exception:  # noqa
+                    pass
         await srv.shutdown(0)
     finally:
         client_mod.netrc_from_env, helpers_mod.netrc_from_env = saved
         os.environ.clear()
         os.environ.update(saved_env)
     obs["out"] = out
+    obs["later"] = later
     return obs
 
 
@@ -700,22 +744,27 @@ def oracle_proxy(ctx, case, res, hang):
     for name, spec in case["env"]:
         pid, user, pw = spec
         cred_of[PROXIES[pid]] = basic((user, pw or "")) if user is not None else None
+    if case.get("explicit"):
+        pid, user, pw = case["explicit"]
+        cred_of[PROXIES[pid]] = basic((user, pw or "")) if user is not None else None
     env_creds = {c for c in cred_of.values() if c}
-    for k, s in enumerate(res["seen"]):
+    for k, s in enumerate(list(res["seen"]) + list(res.get("later") or [])):
         pa = [v for n, v in s["headers"] if n.lower() == "proxy-authorization"]
         ep = tuple(s["endpoint"]) if s["endpoint"] else None
         for v in pa:
             if v not in env_creds:
                 continue
             if ep not in cred_of:
-                ctx.violation("C17/confine/env-proxy-credential-sent-to-an-origin", case,
-                              f"request {k} ({s['method']} {s['target']}) went directly to {ep} with the Proxy-Authorization of an environment proxy")
+                ctx.violation("C17/confine/proxy-credential-sent-to-an-origin", case,
+                              f"request {k} ({s['method']} {s['target']}) went directly to {ep} with the Proxy-Authorization that belongs to a proxy")
             elif cred_of[ep] != v:
                 owner = [e for e, c in cred_of.items() if c == v]
                 ctx.violation("C17/confine/env-proxy-credential-sent-to-another-proxy", case,
                               f"request {k} ({s['method']} {s['target']}) to proxy {ep} carries the Proxy-Authorization configured for proxy {owner}")
     # each hop must go through the proxy configured for its scheme (a redirect that changes scheme changes proxy)
     table = {name.lower()[:-6]: PROXIES[spec[0]] for name, spec in case["env"]}
+    if case.get("explicit"):
+        table = {"http": PROXIES[case["explicit"][0]], "https": PROXIES[case["explicit"][0]]}
     hop_urls = [(case["start"]["o"], case["start"]["path"])] + [(r["loc"]["o"], r["loc"]["path"]) for r in case["chain"]]
     reqs = [s for s in res["seen"]]
     i = 0
@@ -756,6 +805,16 @@ def proxy_cases():
                            "start": {"o": walk[0], "path": "/d/x0"},
                            "chain": [{"status": (302, 307, 303)[k % 3], "loc": {"o": o, "path": f"/d/x{k + 1}"}} for k, o in enumerate(walk[1:])],
                            "class": "env-proxy"}
+
+
+def explicit_proxy_cases():
+    """proxy= argument with / without userinfo and no proxy_headers=, then plain calls on the same session"""
+    for spec in (["p1", "user1", "pw1"], ["p2", "user2", None], ["p1", None, None]):
+        for walk in ((0,), (0, 3), (2,), (0, 2), (3, 0)):
+            yield {"kind": "proxy", "env": [], "explicit": spec, "netrc": "none", "method": "GET", "tunnel": False,
+                   "start": {"o": walk[0], "path": "/d/x0"},
+                   "chain": [{"status": 302, "loc": {"o": o, "path": f"/d/x{k + 1}"}} for k, o in enumerate(walk[1:])],
+                   "later": [0, 3], "class": "explicit-proxy"}
 
 
 def norm_events(line):
@@ -848,6 +907,10 @@ def oracle(ctx, case, res, hang):
             if any(p in caller_rcookies for p in pairs):
                 ctx.violation(f"C17/confine/per-request-cookie-sent-off-origin{back}", case,
                               f"hop {k} to {s['origin']} carries per-request cookies (supplied for {o0})")
+        for nh, (nl, _, npw) in NETRC.items():
+            if basic((nl, npw)) in auth and s["origin"][1] != nh:
+                ctx.violation("C17/confine/netrc-credential-sent-to-another-host", case,
+                              f"request {k} (hop {hop}) to {s['origin']} carries the netrc credentials of {nh}")
         for h, val in url_creds:
             if val in auth:
                 ok = h <= hop and all(x["origin"] == s["origin"] for x in seen[: k + 1] if h <= x["hop"])
@@ -885,8 +948,20 @@ def oracle(ctx, case, res, hang):
             ctx.violation("C17/confine/per-request-cookie-sent-on-a-later-call", case,
                           f"a later GET on the same session (no cookies=) carried {fpairs}: the cookies= / Cookie header of the "
                           f"earlier call were kept by the session")
-        if any(v in call_auth for n, v in fs["headers"] if n.lower() == "authorization"):
+        fauth = [v for n, v in fs["headers"] if n.lower() == "authorization"]
+        if any(v in call_auth for v in fauth):
             ctx.violation("C17/confine/caller-authorization-sent-on-a-later-call", case, "Authorization of the earlier call re-sent")
+        if any(val in fauth for _, val in url_creds):
+            ctx.violation("C17/confine/url-credential-sent-on-a-later-call", case,
+                          f"a later header-less GET to {fs['origin']} carries credentials that were embedded in a URL of the earlier call: "
+                          f"what the client installed for one call stayed in the session")
+        for nh, (nl, _, npw) in NETRC.items():
+            if basic((nl, npw)) in fauth and fs["origin"] and fs["origin"][1] != nh:
+                ctx.violation("C17/confine/netrc-credential-sent-to-another-host", case,
+                              f"a later header-less GET to {fs['origin']} carries the netrc credentials of {nh}")
+        call_pauth = [v for n, v in res["hdrs"] if n.lower() == "proxy-authorization"]
+        if any(v in call_pauth for n, v in fs["headers"] if n.lower() == "proxy-authorization"):
+            ctx.violation("C17/confine/caller-proxy-authorization-sent-on-a-later-call", case, "Proxy-Authorization of the earlier call re-sent")
 
     # method / body table (over the answered requests; a transparent resend must repeat the request it replaces)
     exp_body = res["body"][1] if res["body"] else b""
@@ -959,6 +1034,10 @@ def oracle(ctx, case, res, hang):
 
     # history
     out = str(res["out"])
+    if out.startswith("ok") and res.get("hist_public") is not None and res["hist_public"] != [h["i"] for h in res["hist"]]:
+        ctx.violation("C17/history/caller-sees-stale-history-after-raise-for-status-callback", case,
+                      f"resp.history is {res['hist_public']} for the caller although the loop recorded {[h['i'] for h in res['hist']]}: "
+                      f"the property was read (and cached) by the raise_for_status callback before the loop assigned it")
     if out.startswith("ok"):
         f = res["final"]
         hist = [h["i"] for h in res["hist"]]
@@ -1084,7 +1163,11 @@ def gen_case(rng, *, n=None, method=None, body=None, statuses=None, forms=None, 
         case["jar_kind"] = "dummy"
         case["jar0"] = []
     if rng.random() < 0.15:
-        case["followup"] = True
+        case["followup"] = [o0, rng.randrange(len(ORIGINS))]
+    if rng.random() < 0.06:
+        case["rfs"] = "reads-history"
+    if rng.random() < 0.06 and not case.get("jar_kind"):
+        case["secure_origins"] = rng.sample([0, 1, 5, 10], rng.randint(1, 2))
     if rng.random() < 0.15:
         case["faults"] = sorted(rng.sample(range(0, n + 3), rng.choice([1, 1, 2, 3])))
         if rng.random() < 0.2:
@@ -1184,6 +1267,46 @@ def reissue_walks():
                                    "cookies": None, "jar0": [], "body": {"kind": "none"}, "chain": chain, "class": "reissue-walk"}
 
 
+def secure_origin_walks():
+    """CookieJar(treat_as_secure_origin=[...]) for plain-http origins; Secure cookies; hops over every other port / scheme /
+    sub-domain of that host and a foreign host"""
+    for so in ([1], [0], [10, 5], [1, 10]):
+        for set_o in (so[0], 2):
+            for walk in ((0, 1, 10), (10, 1, 0), (1, 2, 10), (5, 10, 0), (10, 3, 1), (1, 10, 1)):
+                for attrs in ("; Secure; Path=/", "; Secure", "; Secure; Domain=a.test; Path=/"):
+                    chain = [{"status": 302, "loc": {"form": "abs", "o": walk[0], "path": "/d/w1", "cred": None},
+                              "set_cookie": [f"ssid=S{attrs}", "plain=P; Path=/"]}]
+                    for k, o in enumerate(walk[1:]):
+                        chain.append({"status": 302, "loc": {"form": "abs", "o": o, "path": f"/d/w{k + 2}", "cred": None}})
+                    yield {"max": 10, "allow": True, "trust": False, "method": "GET", "start": {"o": set_o, "path": "/d/w0", "cred": None},
+                           "params": None, "headers": [], "cookies": None, "jar0": [], "body": {"kind": "none"}, "chain": chain,
+                           "secure_origins": so, "class": "secure-origin-walk"}
+
+
+def session_state_cases():
+    """header-less calls in which the client itself installs credentials (URL / Location userinfo, netrc), followed by
+    header-less calls on the same session to the same and to other origins"""
+    for trust in (False, True):
+        for scred in (None, ["u0", "p0"]):
+            for walk in ((), (0,), (3,), (3, 0), (1,), (0, 3)):
+                for lcred in (None, 0, len(walk) - 1):
+                    if lcred is not None and (lcred < 0 or (lcred == 0 and len(walk) == 1 and False)):
+                        continue
+                    chain = []
+                    for k, o in enumerate(walk):
+                        chain.append({"status": (302, 307)[k % 2], "loc": {"form": "abs", "o": o, "path": f"/d/q{k + 1}",
+                                                                            "cred": [f"u{k + 1}", f"p{k + 1}"] if lcred == k else None}})
+                    for rfs in (None, "reads-history"):
+                        if rfs and (trust or scred):
+                            continue
+                        c = {"max": 10, "allow": True, "trust": trust, "method": "GET", "start": {"o": 0, "path": "/d/q0", "cred": scred},
+                             "params": None, "headers": [], "cookies": None, "jar0": [], "body": {"kind": "none"}, "chain": chain,
+                             "followup": [0, 3, 5], "class": "session-state"}
+                        if rfs:
+                            c["rfs"] = rfs
+                        yield c
+
+
 def dummy_jar_cases():
     """DummyCookieJar sessions: per-request cookies= and Set-Cookie responses along same-origin, cross-origin and A-B-A chains;
     a later call on the same session must be clean"""
@@ -1257,6 +1380,10 @@ def classify_generated(ctx, case):
         ctx.hit("gen:dummy-jar" + ("+cookies" if case.get("cookies") else ""))
     if case.get("followup"):
         ctx.hit("gen:followup-call")
+    if case.get("rfs"):
+        ctx.hit("gen:raise-for-status-callback")
+    if case.get("secure_origins"):
+        ctx.hit("gen:treat-as-secure-origin")
 
 
 def classify(ctx, case, res, hang):
@@ -1290,7 +1417,7 @@ def run_all(ctx, cases):
         res, hang, excs = execute(case)
         if case.get("kind") == "proxy":
             # environment proxies are outside the Lean model: direct oracle only
-            ctx.hit("gen:class:env-proxy", "proxy-outcome:" + ("HANG" if hang or res is None else str(res["out"])))
+            ctx.hit("gen:class:" + case.get("class", "env-proxy"), "proxy-outcome:" + ("HANG" if hang or res is None else str(res["out"])))
             if res is not None:
                 for x in res["seen"]:
                     ctx.hit("proxy-request:" + ("CONNECT" if x["method"] == "CONNECT" else "via-proxy" if tuple(x["endpoint"]) in PROXIES.values() else "direct"))
@@ -1329,14 +1456,17 @@ def check(ctx):
     rwalks = list(reissue_walks())
     dcases = list(dummy_jar_cases())
     pcases = list(proxy_cases())
+    xcases = list(explicit_proxy_cases())
+    swalks = list(secure_origin_walks())
+    scases = list(session_state_cases())
     # the budget of this check starts now (a first run in a fresh worktree spends minutes building the Lean side)
     import time
     ctx.deadline = time.time() + (60 if ctx.quick else 780)
     if ctx.quick:
-        cases += rng.sample(table, 400) + rng.sample(walks, 200) + counters + rng.sample(jwalks, 300) + rng.sample(fchains, 400) + rwalks + rng.sample(dcases, 60) + rng.sample(pcases, 250)
+        cases += rng.sample(table, 400) + rng.sample(walks, 200) + counters + rng.sample(jwalks, 300) + rng.sample(fchains, 400) + rwalks + rng.sample(dcases, 60) + rng.sample(pcases, 250) + rng.sample(swalks, 100) + scases + xcases
         n_rand, n_cred, n_forms = 2000, 600, 600
     else:
-        cases += table + walks + counters + jwalks + fchains + rwalks + dcases + pcases
+        cases += table + walks + counters + jwalks + fchains + rwalks + dcases + pcases + swalks + scases + xcases
         ctx.extra["exhaustive_small_scopes"] = ("all status x method x body-kind tables (x 3 continuations), all origin walks of "
                                                "length 3 over 4 origins x credential position, all (chain length, max_redirects) pairs <= (5, 7)")
         n_rand, n_cred, n_forms = 50000, 12000, 12000
@@ -1348,7 +1478,8 @@ def check(ctx):
     # blind spots are judged on what was generated (and on the model's verdicts), never on the implementation's behaviour
     need = ["gen:A-B-A", "gen:url-credentials", "gen:trust-env", "gen:slow-body", "gen:fault:one", "gen:fault:several",
             "gen:fault:retry-off", "gen:class:jar-walk", "gen:class:fault-chain", "gen:class:reissue-walk", "gen:class:dummy-jar",
-            "gen:dummy-jar+cookies", "gen:followup-call", "gen:class:env-proxy", "proxy-request:CONNECT",
+            "gen:dummy-jar+cookies", "gen:followup-call", "gen:class:secure-origin-walk", "gen:class:session-state",
+            "gen:raise-for-status-callback", "gen:treat-as-secure-origin", "gen:class:explicit-proxy", "gen:class:env-proxy", "proxy-request:CONNECT",
             "proxy-request:via-proxy", "proxy-request:direct"] + \
            [f"gen:form:{f}" for f in ("abs", "schemerel", "rel", "relpath", "none", "invalid", "nonhttp", "badorigin")] + \
            [f"gen:status:{s}" for s in REDIRECTS] + [f"gen:body:{b}" for b in BODY_KINDS]
